@@ -306,6 +306,9 @@ def _settings(n, phases):
 
 
 SHRINK_BUDGET = {"quick": 300, "thorough": 1500}
+if os.environ.get("G3DVERIF_SHRINK_BUDGET"):
+    # development aid (seed-stability sweeps only need the exit code): a smaller shrinking budget
+    SHRINK_BUDGET = {"quick": int(os.environ["G3DVERIF_SHRINK_BUDGET"]), "thorough": int(os.environ["G3DVERIF_SHRINK_BUDGET"])}
 
 
 def drive_hyp(ctx, prop, stratum, n):
